@@ -1793,7 +1793,7 @@ impl<'a> Ctx<'a> {
         }
 
         if is_mod {
-            if !file.chars().all(|ch| ch.is_ascii_alphanumeric()) {
+            if file.is_empty() || !file.chars().all(|ch| ch.is_ascii_alphanumeric()) {
                 self.diagnostics.push(LoweringDiagnostic {
                     kind: LoweringDiagnosticKind::ModMustBeAlphanumeric,
                     range: arg.range(self.tree),
